@@ -404,6 +404,8 @@ func runInner(c Case) (rep report) {
 		runScalerLaws(c, &rep)
 	case "unicode":
 		runUnicodeLaws(c, &rep)
+	case "stackedlaw":
+		runStackedLaw(c, &rep)
 	default:
 		panic("harness: unknown family " + c.Family)
 	}
@@ -455,7 +457,13 @@ func emit(w *runner.W, c Case, rep report) {
 	w.Eval(rep.nontrivial)
 	for _, f := range rep.findings {
 		b, _ := json.Marshal(c)
-		w.Violation(f.sig, f.detail+"\ncase: "+string(b), c)
+		if len(b) > 4000 {
+			b = append(b[:4000], "..."...)
+		}
+		w.Violation(tagSig(c, f.sig), f.detail+"\ncase: "+string(b), c)
+	}
+	if c.Tag != "" {
+		w.Add("cases_"+strings.ReplaceAll(c.Tag, "-", "_"), 1)
 	}
 	if len(rep.findings) == 0 {
 		w.Outcome(append([]string{c.Family, fmt.Sprint(c.Cfg.Color, c.Cfg.Unicode)}, rep.outcome...)...)
@@ -599,6 +607,37 @@ func worker(w *runner.W) {
 			}
 		}
 	}
+	// size sweeps of the laws: every maximum bar length, every magnitude as
+	// value / minimum / maximum, every number of buckets
+	sp := sweepParams(w.Quick())
+	for _, cu := range cu4 {
+		for _, maxLen := range sizes(sp.maxBarLen) {
+			for _, fam := range []string{"unicode", "stackedlaw"} {
+				caseNo++
+				if !w.Owns(caseNo) {
+					continue
+				}
+				if !exec(Case{Family: fam, Cfg: Cfg{Color: cu[0], Unicode: cu[1], Cols: maxLen}, Tag: tagSize}) {
+					return
+				}
+			}
+		}
+	}
+	for _, sc := range scaleNames {
+		for _, mp := range magPairs() {
+			caseNo++
+			if !w.Owns(caseNo) {
+				continue
+			}
+			cols := 0
+			if mp.sweep {
+				cols = 1
+			}
+			if !exec(Case{Family: "scaler", Cfg: Cfg{Scale: sc, Min: mp.min, Max: mp.max, Cols: cols}, Tag: tagSize}) {
+				return
+			}
+		}
+	}
 
 	// sweep 1: everything except heatmap histories with a blank column key;
 	// sweep 2: those (they are known to be able to hang, and a hang ends the shard)
@@ -637,6 +676,99 @@ func worker(w *runner.W) {
 				}
 			}
 		}
+		if sweep == 1 && !stop {
+			sweepFamilies(w.Quick(), func(u sweepUnit) bool {
+				for _, r := range u.renders {
+					for _, distract := range []bool{false, true} {
+						if distract && !u.both {
+							continue
+						}
+						caseNo++
+						if !w.Owns(caseNo) {
+							continue
+						}
+						if w.Expired() {
+							stop = true
+							return false
+						}
+						cases := make([]Case, len(u.cfgs))
+						for i, cf := range u.cfgs {
+							cases[i] = Case{Family: u.family, Hist: u.hist, Renders: r, Cfg: cf, Tag: u.tag, Diff: u.diff, Distract: distract}
+						}
+						if !execAll(cases) {
+							return false
+						}
+					}
+				}
+				return true
+			})
+		}
+	}
+}
+
+type sweepP struct {
+	maxDim    int // rows / columns
+	maxKeyLen int
+	maxSegs   int // sub-keys of a bargraph
+	maxBarLen int
+	scrollLen int
+}
+
+func sweepParams(quick bool) sweepP {
+	if quick {
+		return sweepP{maxDim: 257, maxKeyLen: 257, maxSegs: 257, maxBarLen: 257}
+	}
+	return sweepP{maxDim: 1025, maxKeyLen: 1025, maxSegs: 1025, maxBarLen: 1025}
+}
+
+var allFamilies = []string{"histo", "bars", "table", "spark", "heatmap", "reduce"}
+
+// sweepFamilies enumerates the units of the size sweeps and history shapes
+// (sweep.go) in a fixed order; f returns false to stop.
+func sweepFamilies(quick bool, f func(u sweepUnit) bool) {
+	sp := sweepParams(quick)
+	each := func(us []sweepUnit) bool {
+		for _, u := range us {
+			if !f(u) {
+				return false
+			}
+		}
+		return true
+	}
+	for _, n := range sizes(sp.maxDim) {
+		for _, fam := range allFamilies {
+			if !each(dimUnits(fam, n)) {
+				return
+			}
+		}
+	}
+	for _, n := range sizes(sp.maxKeyLen) {
+		if n == 0 {
+			continue
+		}
+		for _, fam := range allFamilies {
+			if !each(keyLenUnits(fam, n)) {
+				return
+			}
+		}
+	}
+	for _, n := range sizes(sp.maxSegs) {
+		if !each(segUnits(n)) {
+			return
+		}
+	}
+	for i, v := range magGrid {
+		nb := magGrid[(i+len(magGrid)-1)%len(magGrid)]
+		for _, fam := range allFamilies {
+			if !each(magUnits(fam, v, nb)) {
+				return
+			}
+		}
+	}
+	for _, fam := range allFamilies {
+		if !each(historyUnits(fam, quick)) {
+			return
+		}
 	}
 }
 
@@ -647,8 +779,16 @@ func replay(w *runner.W, raw json.RawMessage) {
 	}
 	reps, _ := runCases([]Case{c})
 	for _, f := range reps[0].findings {
-		w.Violation(f.sig, f.detail, c)
+		w.Violation(tagSig(c, f.sig), f.detail, c)
 	}
+}
+
+// tagSig: the signatures of the sweep families carry the family.
+func tagSig(c Case, sig string) string {
+	if c.Tag == "" {
+		return sig
+	}
+	return sig + "/" + c.Tag
 }
 
 func qs(ss []string) string {
@@ -676,6 +816,9 @@ func rule(prop, tier string) string {
 	sb.WriteString("Signed tables (heatmap and spark; cells mixing negative, zero, absent (= 0) and positive totals, sums of repeated samples included, all-negative tables with an absent cell included): sample alphabet columns {a,b[,c]} x rows {r,q} x values {none(=1),0,-5,-1,3} (30 samples with column c, 20 without; the pass list says which); heatmap scale{linear,log2,log10} x colour x unicode x limits {(5,5),(2,2),(1,5),(5,1)} x range {auto, --min -10, --min -10 --max 10, --min -3 --max 2, --max -2, --min -7 --max -2, --min -1}; spark scale x colour x unicode x those limits x notruncate; quick tier: colour+unicode both on/off, limits (5,5),(2,2), without --min -1; the length-4 pass of the thorough tier: colour+unicode both on/off, limits (5,5), heatmap range {auto, --min -10, --min -3 --max 2}. Judged there as everywhere: within one rendered heatmap/sparkline the drawn cell (palette index / glyph index) is a monotone non-decreasing function of the cell's value (equal values drawn identically, a larger value never drawn colder/lower) and every row has one cell per displayed column. ")
 	fmt.Fprintf(&sb, "Wide states: every non-empty subset of the key pool {%s}, one sample per key, limits 0..8. ", qs(widePool))
 	fmt.Fprintf(&sb, "Laws: termscaler Scale/Bucket/LengthVal/ScaleKeys for linear, log2, log10 over (val,min,max) in G^3, |G|=%d including Min/MaxInt64; termunicode BarWrite/HeatWrite/SparkWrite over %d unit values x colour x unicode x max length {0,1,2,7,50}. ", len(gridValues(quick)), len(unitGrid()))
+	sp := sweepParams(quick)
+	fmt.Fprintf(&sb, "SIZE sweeps (signatures end in /size-family; S(max) = 0..70 and 2^k-1, 2^k, 2^k+1 for k >= 7 up to max; element i carries i: keys <i>, r<i>, s<i>, value i+1; rendered once at the end and once with an intermediate render at half of the samples): (a) n columns and n rows for n in S(%d): table/heatmap/spark with n columns (keys 0..n-1, row r, every third column also in row q) and with n rows (two columns), histogram and reduce with n keys, bargraph with n keys x 2 sub-keys, each with the limit of the swept dimension in {0,1,2,5,10,n-1,n,n+1} (the other limit 5), colour+unicode both on / both off, table with and without totals and with the expression format, heatmap linear+log2, spark linear and log10 --notruncate, histogram linear / log10 --sort text / expression format, bargraph stacked / grouped / grouped log10 with the expression format; the more-notes of heatmap (rows and columns) and spark (rows) must equal the number not shown for every such limit; (b) key length n in S(%d), n >= 1: a key of n visible runes of the kinds %v (multibyte = 2- and 3-byte runes; esc-wrapped = ESC[31m key ESC[0m; esc-inside = ESC[1;4m before every seventh rune, reset at the end) as column key and as row key next to one-rune keys, in every family, renders {end; after 1 sample and end; after 2 and end}; (c) value magnitude: every power of ten and every power of two, -1/+0/+1, both signs, MaxInt64, MinInt64 (%d values v) in states {v alone; v and 1; v and its neighbour in that list; v and -v} x every family x scale{linear,log2,log10} x format{default,expression} (bargraph also stacked; a bargraph row whose positive parts add up beyond MaxInt64 is not generated); (d) bargraph with n sub-keys (n stacked segments / n grouped bars per row) for n in S(%d), values all 1 / i+1 with a second row n-i / 1000 followed by ones, stacked x 4 colour-unicode settings, grouped, stacked with the expression format; with colour off and more than 16 segments only the total bar length is judged (the 16 segment characters repeat); (e) laws: BarWrite/HeatWrite/SparkWrite and BarWriteStacked for every maximum length in S(%d) x colour x unicode (BarWriteStacked over %d value vectors: small shapes and, around every positive magnitude v, {v}, {v,v-1}, {v/2,v-v/2}, {1,v/3,1,v/3}, with the maximum = this vector's positive sum, twice it, MaxInt64: total cells <= maximum length, segments monotone in their values); termscaler Scale/Bucket/LengthVal with every magnitude as val, for (min,max) in {MinInt64,-1,0,1} x magnitudes and magnitudes x {MaxInt64, 0, min+1} (%d ranges), and for min = 0 < max every number of buckets 1..70,127..129,255..257 and every maximum length 0..70,127..129,255..257. ", sp.maxDim, sp.maxKeyLen, keyKinds, len(magGrid), sp.maxSegs, sp.maxBarLen, len(stackedVecs), len(magPairs()))
+	sb.WriteString("HISTORY (signatures end in /history-family): ONE long-lived renderer instance on one terminal rendered after every sample (and: after every second sample) of a history in which the aggregated state grows AND shrinks, judged after EVERY render (one case per prefix): table/heatmap/spark: a table filled column by column (time series; the row with the largest cells exists only in the first three columns, a row with a 30-rune key only in columns 1..3, one row in every column, one from column 4 on; with a column limit the spark command's Trim drops old columns, so rows disappear, the maximum decreases and the longest key goes away), the same with the columns arriving in decreasing order, and a 15-sample up-and-down history with negative increments (maxima decrease, cells and rows return to zero, orders change); histogram, reduce, bargraph: a 15-sample up-and-down history (counts go to zero and below, a long key comes and goes, an 8-digit value shrinks to one digit). Every such case also with a SECOND renderer instance of the same family (own terminal and aggregator, other keys, a longer key, larger values) doing a complete run before every render of the judged one. Oracle: the oracles of the family on the judged render, and for table/heatmap/spark additionally the DIFFERENTIAL: the data lines (above the footer, blank lines left out, runs of blanks squeezed) must equal those a fresh renderer on a fresh terminal draws for the same aggregator state (no row of an earlier state left on screen, no cell, number, header or more-note computed from an earlier state). ")
 	sb.WriteString("non-trivial = the final render displayed at least one data row (and one column for the table families); for laws: at least three distinct scaled values / bar lengths")
 	return sb.String()
 }
@@ -690,11 +833,13 @@ func main() {
 		Assumptions: func(string) []string {
 			return []string{
 				"only call patterns the commands produce are driven (e.g. HistoWriter.WriteForLine is never called with line == number of items; a scale is never combined with --stacked; row/column limits are >= 0)",
-				"judged are the lines the final render is responsible for (rows 0..n-1 of the displayed items, headers, more-notes); lines left over from an earlier render with more rows are not judged",
+				"judged are the lines the final render is responsible for (rows 0..n-1 of the displayed items, headers, more-notes); lines left over from an earlier render with more rows are not judged, except by the differential of the history family (table, heatmap, spark), where a data line of an earlier state that is still on screen is a finding",
 				"visible width = runes outside SGR sequences (ESC [ digits ; m); double-width glyphs are not covered",
 				"the default formatter's text is taken from humanize.Hi itself (its correctness is C11); the expression formatter <{0}|{1}|{2}> is compared with an independent decimal rendering of (value, min, max): for tabulate and spark min/max must be the table's ComputeMinMax of the rendered state; for histogram and bargraph every judged line of the final render must have been formatted with the same (min, max) and max must not be below a displayed value (the renderers pass 0 and a running maximum that never decreases; how often it differs from the final maximum is counted, not judged)",
 				"row/column order is taken from the aggregator's Ordered*/ItemsSorted* calls with the command's default sorters (ordering is C13)",
 				"between two renders the aggregators fold commutatively, so only one order of the samples of a segment is executed",
+				"history family: what the renderers keep on purpose is not judged: column and key widths only grow (a long-lived renderer may pad wider than a fresh one; the columns must still line up), histogram and bargraph scale against a running maximum that never decreases (so these two are judged by their own oracles only, not against a fresh renderer), footer lines below the data are not compared",
+				"sums beyond the int64 range are not generated on purpose in the sweeps: a bargraph row whose positive parts add up to more than MaxInt64 has no representable total (the aggregator's and the renderer's sums wrap around), nothing proportional can be drawn for it",
 				"a render that neither returns within 10 s nor keeps its heap growth below 512 MiB is reported as a hang; the worker then stops (the goroutine cannot be killed)",
 			}
 		},
